@@ -6,7 +6,7 @@ Part "stack" (E2, explicit-state BFS over operation histories on a real Console)
                  is pushed again and again, as a program does) and with the full probe vector
                  looked up after EVERY replayed event (as a session that prints between theme
                  operations does, so any per-console memo is populated). Every transition out
-                 of a state of depth <= 2 (quick) / every transition (thorough) is executed a
+                 of a state of depth <= 2 (quick) / <= 3 (thorough) is executed a
                  second time with no lookup before the judged one, and judged again.
     events     = push_theme(T, inherit) | use_theme(T, inherit).__enter__ | pop_theme |
                  use_theme.__exit__(None..) | use_theme.__exit__(exception)  with
@@ -14,7 +14,17 @@ Part "stack" (E2, explicit-state BFS over operation histories on a real Console)
                  stack of open context managers; only balanced use is enabled (pop when the
                  top entry was pushed explicitly or is the base, exit when the top entry
                  belongs to the innermost open block)
-    bases      = Console(theme=B0 | B1 | None)
+    refusals   = operations that must fail are events too, the caller handles the error and the
+                 history goes on: pop_theme on the base, push_theme / use_theme of an invalid theme
+                 (its styles fail half way through being read), Theme.from_file on three bad
+                 configs + Theme() on a bad definition. After each: every lookup as before; and
+                 because the state behind a refusal is a state of its own (`refused` flag in the
+                 canonical form) every later operation is executed from it and judged by the
+                 reference, so a changed depth or a half-done push shows at the next pop / push.
+    drivers    = every history is run on a Console (get_style, push_theme, pop_theme, use_theme)
+                 and, without the block events, on a bare rich.theme.ThemeStack (get, push_theme,
+                 pop_theme; no parse fallback: an unresolvable name gives None)
+    bases      = Console(theme=B0 | B1 | None)  /  ThemeStack(B0 | B1 | themes.DEFAULT)
     oracle     = RefStack: a list of (own definitions, has-defaults, inherit) walked top
                  down exactly as the statement says; hand-written RefStyles for every
                  definition and for the parse fallback of every probe; after every event
@@ -25,7 +35,8 @@ Part "stack" (E2, explicit-state BFS over operation histories on a real Console)
                  be what it was at construction; on every new state all 130 default names
                  are swept
     canonical  = per level (effective table over the name universe, block-owned flag) of the
-                 reference + the greatest height the history has reached (= the set of depths
+                 reference + whether an operation was refused + the greatest height the history
+                 has reached (= the set of depths
                  at which lookups have been made, the part of a lookup memo's key that the
                  stack alone does not determine) + the observed lookup vector + a fingerprint
                  of the real ThemeStack (entry sizes, get bound to the top entry). Theme
@@ -35,7 +46,10 @@ Part "stack" (E2, explicit-state BFS over operation histories on a real Console)
                  bare base after excursions to height 1..5), so `states` is a sum over
                  disjoint owners.
     A transition that violates is reported and its target is not expanded (consequences
-    of one defect do not produce further keys).
+    of one defect do not produce further keys). A failure in a history with refusals is first
+    re-run without them: if it is there too it is left to that history, otherwise it is what
+    the refused operation left behind (keys refused-operation/later-...). Console keys are
+    folded into the ThemeStack key of the same class.
 
 Part "config" (E1): Theme.config -> Theme.from_file over a C06-style universe of styles
     (1.3 k styles: every attribute in 3 states, all attribute pairs, 12 colour spellings
@@ -46,14 +60,7 @@ Part "config" (E1): Theme.config -> Theme.from_file over a C06-style universe of
     defaults and over a null default, alone / beside a non-null entry / as every entry; names must be
     equal in both directions and every style equal; thorough adds all pairs U x U.
 
-Measured on this sandbox (CPU seconds summed over workers; the machine was shared while
-measuring, on 16 idle cores divide by ~14):
-    quick     624,225 states  1,002,384 transitions + 47,768 re-executions without intermediate
-              lookups (594,303 states left at the depth cap, space of height <= 4 closed),
-              9,586 config themes (7 s CPU)                                    ~400-480 s CPU
-    thorough  654,147 states  2,939,709 transitions, each executed a second time without
-              intermediate lookups; closed at height <= 5 (longest shortest history 8 events),
-              1,070,486 config themes                                          ~2500 s CPU
+Measured numbers: see MEASURED below / describe().
 """
 import collections
 import io
@@ -64,14 +71,15 @@ from ..refstyle import RefStyle, ATTRS
 ID = "C20"
 LEVEL = "model_checking"
 ENGINE = "E2"
-CAP_S = {"quick": 600, "thorough": 1800}
-TECHNIQUE = ("explicit-state BFS over push/pop/use_theme histories on a real Console (state = history, replayed on a "
-             "fresh Console, dedup on reference stack + observed lookups), judged in lock-step by a reference theme "
-             "stack; bounded-exhaustive config round trip over a style universe")
-LEVEL_TEXT = ("Every history of push_theme / pop_theme / use_theme enter / exit / exit-by-exception events over 8 themes "
-              "and 3 base themes is explored breadth first until the canonical state space closes under the stack-height "
+CAP_S = {"quick": 600, "thorough": 3600}
+TECHNIQUE = ("explicit-state BFS over push/pop/use_theme/refused-operation histories on a real Console and on a bare "
+             "ThemeStack (state = history, replayed on a fresh session, dedup on reference stack + observed lookups), judged "
+             "in lock-step by a reference theme stack; bounded-exhaustive config round trip over a style universe")
+LEVEL_TEXT = ("Every history of push_theme / pop_theme / use_theme enter / exit / exit-by-exception events and refused "
+              "operations (pop of the base, push / use_theme of an invalid theme, bad theme input) over 8 themes "
+              "and 3 base themes, on a Console and on a bare ThemeStack, is explored breadth first until the canonical state space closes under the stack-height "
               "bound (thorough) or up to depth 4 (quick, which closes the space of height <= 4). Every transition is a call "
-              "into the real Console followed by a comparison of all probe lookups with an independent reference stack, so "
+              "into the real code followed by a comparison of all probe lookups with an independent reference stack, so "
               "traces_validated_against_impl equals transitions. The config round trip is exhaustive over the stated style universe.")
 LEVEL_NOTE = ("Trusted: CPython, the DEFAULT_STYLES table data, Style.parse as the definition of the parse fallback for "
               "the 130 swept default names only (the probes use hand-written references), vf/refstyle.py and the "
@@ -1126,7 +1134,10 @@ def describe(tier, seed, res):
     closed = not res.capped and depth_capped == 0
     return {
         "rule": "BFS over histories of {push_theme, use_theme enter} x {T1..T4} x Theme(inherit T/F) x inherit T/F (32 events), "
-                "pop_theme, use_theme exit, use_theme exit by exception on Console(theme = B0 | B1 | None); stack height <= %d; %s. "
+                "pop_theme, use_theme exit, use_theme exit by exception, and the refused operations pop_theme on the base, "
+                "push_theme / use_theme of an invalid theme (inherit T/F), bad Theme.from_file / Theme() input -- after which the "
+                "history continues -- on Console(theme = B0 | B1 | None) and (push/pop/refusals only) on a bare ThemeStack; "
+                "stack height <= %d; %s. "
                 "Each history is replayed in one session: one Theme object per theme id, all probes looked up after every event"
                 "; a second execution without lookups before the last event is judged too (%s). "
                 "After every transition 10 probes (a, b, c, repr.number, repr.str, 'bold red', 'not a style', three with default=) "
@@ -1135,7 +1146,7 @@ def describe(tier, seed, res):
                 "inheriting push to a lower entry, falls back to parsing, or the event is a pop/exit. Config round trip: %d themes "
                 "over a universe of %d styles." % (
                     MAXHEIGHT, "depth <= %d" % QUICK_DEPTH if tier == "quick" else "until no new canonical state appears",
-                    "all transitions" if tier == "thorough" else "histories of <= %d events" % (QUICK_BOTH_MODES_DEPTH + 1),
+                    "histories of <= %d events" % ((QUICK_BOTH_MODES_DEPTH if tier == "quick" else THOROUGH_BOTH_MODES_DEPTH) + 1),
                     c.get("config_themes", 0), c.get("max_style_universe", 0)),
         "assumptions": [
             "canonical state = reference levels (effective table over {a,b,c,repr.number,repr.str}, block flag) + greatest height "
@@ -1145,7 +1156,10 @@ def describe(tier, seed, res):
             "is assumed to depend on the history only through the stack, the depths visited and the unmodified Theme objects "
             "(which themes were at a depth earlier is covered one step deep: every push is tried from every such state)",
             "the run without intermediate lookups covers %s" % (
-                "every transition" if tier == "thorough" else "transitions out of states of depth <= %d" % QUICK_BOTH_MODES_DEPTH),
+                "transitions out of states of depth <= %d" % (QUICK_BOTH_MODES_DEPTH if tier == "quick" else THOROUGH_BOTH_MODES_DEPTH)),
+            "a refused operation must leave every lookup as it was; that it left the depth and all later behaviour as it was "
+            "is judged by continuing the history from the state behind it (flag `refused` in the canonical state; one "
+            "representative history per such state); an invalid theme that is accepted is counted and not judged",
             "only balanced use is explored: pop_theme on an explicitly pushed entry or the base, __exit__ of the innermost block "
             "when its entry is on top",
             "a violating transition's target is not expanded, so behaviour behind a defect is not explored until it is fixed",
@@ -1165,6 +1179,8 @@ def describe(tier, seed, res):
             "frontier_states_at_depth_cap": depth_capped,
             "config_themes": c.get("config_themes", 0),
             "transitions_without_intermediate_lookups": c.get("transitions_without_intermediate_lookups", 0),
+            "refused_operations_executed": c.get("refused_operations_executed", 0),
+            "drivers": list(DRIVERS),
         },
     }
 
